@@ -252,8 +252,19 @@ class Sampler:
                 self.features.add("caret-in-identifier")
             if out is not None and name == "KeywordPrefix" and (b"::" in out or out.startswith(b":")):
                 self.features.add("double-colon-in-identifier")
-            if out is not None and name == "DiscardSequence" and out[2:].lstrip(b" \t\r\n,\x0b\x0c\x1c\x1d\x1e\x1f").startswith(b"#_"):
-                self.features.add("discard-of-discard")
+            if out is not None and name == "DiscardSequence":
+                rest = out[2:]
+                while True:  # skip blanks and comments between the marker and what it discards
+                    rest = rest.lstrip(b" \t\r\n,\x0b\x0c\x1c\x1d\x1e\x1f")
+                    if rest.startswith(b";"):
+                        cut = min([i for i in (rest.find(b"\n"), rest.find(b"\r")) if i >= 0] or [len(rest)])
+                        rest = rest[cut + 1:]
+                        continue
+                    break
+                if rest.startswith(b"#_"):
+                    self.features.add("discard-of-discard")
+            if out is not None and name == "Map" and out.startswith(b"#:") and b"{" in out and b"/" in out[2:out.index(b"{")]:
+                self.features.add("nsmap-prefix-with-slash")
             if out is not None and name == "MetadataSequence":
                 self.features.add("metadata-any-element")
             return out
